@@ -76,13 +76,12 @@ def judge_validate(o, go, m, compare_targets=True, compare_log=True):
     H = m.get("H") or []
     gout, mout = go.get("outcome"), mo.get("outcome")
     exp = (o.get("meta") or {}).get("expect")
+    # H lists the known-finding classes the document falls in (D4: a key that case-folds onto a keyword). The model reproduces
+    # encoding/json's case-insensitive field matching, so inside those classes too the real package must do what the model does:
+    # a known finding is what the model predicts there, never a licence for any other behaviour.
     if gout in ("panic", "timeout", "crash"):
-        if H:
-            return "known:" + H[0], "outside hypothesis %s" % H
         return "violation", "the real package %s: %s" % (gout, str(go.get("detail"))[:300])
     if gout != mout:
-        if H:
-            return "known:" + H[0], "go=%s model=%s outside hypothesis %s" % (gout, mout, H)
         return "violation", "outcome: real package %s (%s), model %s" % (gout, str(go.get("detail"))[:200], mout)
     if gout != "resolved":
         if exp is not None:
@@ -90,8 +89,6 @@ def judge_validate(o, go, m, compare_targets=True, compare_log=True):
         return "agree", ""
     gv, mv = go.get("verdicts"), mo.get("verdicts")
     if gv != mv:
-        if H:
-            return "known:" + H[0], "verdicts differ outside hypothesis %s" % H
         idx = [i for i, (a, b) in enumerate(zip(gv, mv)) if a != b]
         return "violation", "verdicts: real package %r, model %r (instance index %r)" % (gv, mv, idx)
     sp = m.get("spec")
